@@ -3,7 +3,9 @@ package main
 // C08: merged REQ.  Histories for the driver in merge_driver.go: every child
 // gets a script per REQ (stored events, EOSE, live events); the scripts are
 // interleaved at random with each other and with client actions (CLOSE,
-// a second subscription, occasionally a re-issued REQ).
+// a second subscription, occasionally a re-issued REQ).  Beside them: histories
+// for handlers with many children (c08ManyChildren) and histories in which one
+// handler value serves several sessions (c08GenerateMulti).
 
 import (
 	"encoding/json"
@@ -78,8 +80,71 @@ func (g *c08Gen) filters() []common.JFilter {
 }
 
 func c08Generate(r *common.Rand) mCase {
+	return c08GenerateN(r, []int{2, 2, 2, 3, 3, 4}[r.Intn(6)])
+}
+
+// c08GenerateMulti: two or three sessions of ONE handler value, each with a
+// history of its own from c08GenerateN (same number of children, the same
+// subscription ids s1/s2 and overlapping event pools), interleaved at random.
+// Every session is judged on its own.
+func c08GenerateMulti(r *common.Rand) mCase {
+	n := []int{2, 2, 2, 3, 3, 4}[r.Intn(6)]
+	k := 2
+	if r.Chance(25) {
+		k = 3
+	}
+	cs := make([]mCase, k)
+	for j := range cs {
+		cs[j] = c08GenerateN(r.Fork(uint64(j)), n)
+	}
+	return mergeInterleave(r.Fork(99), cs)
+}
+
+// c08ManyChildren: a handler with many children (the property quantifies over
+// every number of children >= 2; the numbers used are the ones around the
+// widths of machine words: 31..33, 63..66, 70).  One REQ; every child but one
+// answers "a stored event now and then, EOSE" in random order; the remaining
+// child ("late": the first, the last or a random one) answers last, with a
+// stored event before its EOSE; then a live event.  The merged EOSE is due at
+// the late child's EOSE and not before.
+var c08ManyNs = []int{31, 32, 33, 63, 64, 65, 66, 70}
+
+func c08ManyChildren(r *common.Rand, n int, which int) mCase {
+	g := &c08Gen{r: r, n: n}
+	u := common.Small
+	u.TSMax = 4
+	for i := 0; i < 5; i++ {
+		g.pool = append(g.pool, u.Event(r, i))
+	}
+	sort.SliceStable(g.pool, func(a, b int) bool { return g.pool[a].TS > g.pool[b].TS })
+	late := []int{0, n - 1, r.Intn(n)}[which%3]
+	c := mCase{N: n}
+	c.Steps = append(c.Steps, mStep{K: "req", Sub: "s1", Fs: []common.JFilter{{}}})
+	order := make([]int, 0, n)
+	for i := 0; i < n; i++ {
+		if i != late {
+			order = append(order, i)
+		}
+	}
+	for i := len(order) - 1; i > 0; i-- {
+		j := r.Intn(i + 1)
+		order[i], order[j] = order[j], order[i]
+	}
+	for _, i := range order {
+		if r.Chance(15) {
+			c.Steps = append(c.Steps, mStep{K: "child", I: i, M: g.childMsgEvent("s1", g.pool[r.Intn(2)])})
+		}
+		c.Steps = append(c.Steps, mStep{K: "child", I: i, M: &mMsg{T: "eose", Sub: "s1"}})
+	}
+	c.Steps = append(c.Steps, mStep{K: "child", I: late, M: g.childMsgEvent("s1", g.pool[2+r.Intn(3)])})
+	c.Steps = append(c.Steps, mStep{K: "child", I: late, M: &mMsg{T: "eose", Sub: "s1"}})
+	c.Steps = append(c.Steps, mStep{K: "child", I: r.Intn(n), M: g.childMsgEvent("s1", common.Pick(r, g.pool))})
+	return c
+}
+
+func c08GenerateN(r *common.Rand, n int) mCase {
 	g := &c08Gen{r: r}
-	g.n = []int{2, 2, 2, 3, 3, 4}[r.Intn(6)]
+	g.n = n
 	u := common.Small
 	u.TSMax = 4
 	np := 3 + r.Intn(5)
@@ -211,8 +276,20 @@ func init() {
 			if n >= mergeExhaustiveFrom {
 				cases = append(cases, c08Exhaustive()...)
 			}
+			// many children, in every tier: 8 numbers of children x 3 choices of the late child
+			many := root.Fork(1 << 41)
+			for k, nn := range c08ManyNs {
+				for w := 0; w < 3; w++ {
+					cases = append(cases, c08ManyChildren(many.Fork(uint64(3*k+w)), nn, w))
+				}
+			}
 			for i := 0; i < n; i++ {
 				cases = append(cases, c08Generate(root.Fork(uint64(i))))
+			}
+			// one handler value serving several sessions: n/10 more histories
+			multi := root.Fork(1 << 40)
+			for i := 0; i < n/10; i++ {
+				cases = append(cases, c08GenerateMulti(multi.Fork(uint64(i))))
 			}
 		}
 		for _, c := range runMergeAll("c08", cases) {
